@@ -1428,6 +1428,7 @@ func runC15(tier string, _ []string) {
 	j.mu.Unlock()
 	run.Count("cells_planned", int64(len(cells)))
 	run.Count("sessions_planned", int64(len(sessions)))
+	run.Extra("sessions_worker_busy_s", float64(c15SessionBusyMs.Load())/1000)
 
 	run.Count("keyfile_commands_planned", int64(rotPlanned))
 	run.Count("mesh_sessions", meshDials)
